@@ -299,8 +299,8 @@ func (pc *pqCase) leftEdgeProbe() bool {
 
 // stepClass names how the querier treats the request: "raw" (rows of samples_v3 as they are),
 // "step-buckets" (processHints replaces the samples by one per step bucket; the bucket grid starts at
-// hints.Start = start - 5m - offset, so it coincides with the evaluation timestamps only if the step
-// divides 5m + offset) or "step>range" (processHints drops samples by timestamp modulo step).
+// hints.Start = start - 5m - offset while the selector is read at T - offset, so the grid coincides with
+// the evaluation timestamps only if the step divides 5m) or "step>range" (processHints drops samples by timestamp modulo step).
 func (pc *pqCase) stepClass() string {
 	if pc.Instant {
 		return "raw-instant"
@@ -309,7 +309,7 @@ func (pc *pqCase) stepClass() string {
 	for _, s := range pc.Sels {
 		if instantFuncs[s.Func] && s.Range == 0 {
 			c := "step-buckets/grid-aligned"
-			if (300000+s.Offset)%(pc.Step*1000) != 0 {
+			if 300000%(pc.Step*1000) != 0 {
 				c = "step-buckets/grid-misaligned"
 			}
 			if s.Func == "timestamp" {
